@@ -18,7 +18,7 @@ DB = "redun/backends/db/__init__.py"
 RID = "RID"
 EDGE = Tup(STR, OBJ, RID)
 TABLES = {"Execution": ["id", "job_id"], "Job": ["id", "task_hash", "call_hash", "parent_id"], "CallNode": ["call_hash", "task_hash", "value_hash"],
-          "Argument": ["arg_hash", "call_hash", "value_hash"], "ArgumentResult": ["arg_hash", "result_call_hash"], "CallEdge": ["parent_id", "child_id"],
+          "Argument": ["arg_hash", "call_hash", "value_hash"], "ArgumentResult": ["arg_hash", "result_call_hash"], "CallEdge": ["parent_id", "child_id"], "CallSubtreeTask": ["call_hash", "task_hash"],
           "Subvalue": ["value_hash", "parent_value_hash"], "TagEdit": ["parent_id", "child_id"], "Tag": ["tag_hash", "entity_id"]}
 MODELS = ["Execution", "Job", "CallNode", "Value", "Tag", "Task"]
 PRELUDE = "(declare-sort RID 0)\n" + "\n".join(f"(declare-sort Row_{t} 0)" for t in TABLES)
@@ -153,11 +153,17 @@ edge_contracts = {
            2: dict(inv=yields_all("CallNode", "call_hash", ("Task", "task_hash"), ("Value", "value_hash")) + yields_all("Argument", "call_hash", ("Value", "value_hash")) + [
                "forall(a, Row_Argument, forall(u, Row_ArgumentResult, implies(tbl_Argument[a] and ids[a.call_hash] and tbl_ArgumentResult[u] and u.arg_hash == a.arg_hash and u.result_call_hash != null_id, "
                " in_y(yielded, CallNode, u.result_call_hash))))",
-               "forall(j, Int, implies(0 <= j and j < index(), in_y(yielded, CallNode, iterated(2)[j][0])))"])},
-    # a call node owns its task, its result value, the values of its arguments, the upstream call nodes of its arguments and its child call nodes
+               "forall(j, Int, implies(0 <= j and j < index(), in_y(yielded, CallNode, iterated(2)[j][0])))"]),
+           3: dict(inv=yields_all("CallNode", "call_hash", ("Task", "task_hash"), ("Value", "value_hash")) + yields_all("Argument", "call_hash", ("Value", "value_hash")) + [
+               "forall(a, Row_Argument, forall(u, Row_ArgumentResult, implies(tbl_Argument[a] and ids[a.call_hash] and tbl_ArgumentResult[u] and u.arg_hash == a.arg_hash and u.result_call_hash != null_id, "
+               " in_y(yielded, CallNode, u.result_call_hash))))"] + yields_all("CallEdge", "parent_id", ("CallNode", "child_id")) + [
+               "forall(j, Int, implies(0 <= j and j < index(), in_y(yielded, Task, iterated(3)[j][0])))"])},
+    # a call node owns its task, its result value, the values of its arguments, the upstream call nodes of its arguments, its child call nodes
     ensures=yields_all("CallNode", "call_hash", ("Task", "task_hash"), ("Value", "value_hash")) + yields_all("Argument", "call_hash", ("Value", "value_hash")) + [
         "forall(a, Row_Argument, forall(u, Row_ArgumentResult, implies(tbl_Argument[a] and ids[a.call_hash] and tbl_ArgumentResult[u] and u.arg_hash == a.arg_hash and u.result_call_hash != null_id, "
-        " in_y(yielded, CallNode, u.result_call_hash))))"] + yields_all("CallEdge", "parent_id", ("CallNode", "child_id"))),
+        " in_y(yielded, CallNode, u.result_call_hash))))"] + yields_all("CallEdge", "parent_id", ("CallNode", "child_id"))
+        # ... and the tasks of its subtree (the rows shallow cache validity is decided from travel with the call node)
+        + yields_all("CallSubtreeTask", "call_hash", ("Task", "task_hash"))),
  "get_value_child_edges": dict(where=f"{DB}:get_value_child_edges", params=EP, yields=Seq(EDGE), ghost=GHOST, lib=LIB, no_raise=True, on_yield=on_yield,
     loops={0: dict(inv=["forall(j, Int, implies(0 <= j and j < index(), in_y(yielded, Value, iterated(0)[j][0])))"])},
     ensures=yields_all("Subvalue", "parent_value_hash", ("Value", "value_hash"))),
@@ -335,6 +341,6 @@ ASSUMPTIONS = [
     "edge generators: completeness only (every owned record is yielded); that nothing else is yielded is not claimed",
     "the per-model serializers (field-by-field round trip of rows through JSON) are compared by the bounded check only",
     "iter_record_ids: the abstract edge relation of the walk contract is the one the edge generators realise; termination of the walk (finite repository) is not proved",
-    "'the destination's cache never serves a result the source's caching rules would refuse' is not covered by these contracts (the bounded check compares rows, tags and their current / superseded status only)",
+    "'the destination's cache never serves a result the source's caching rules would refuse': the contracts carry only that the subtree task rows travel with a call node; the cache lookup in the destination (C03's contracts) is not re-proved over transferred rows, one bounded scenario compares source and destination after a code change",
     "has_pk(s, h) / in_objs(s, x) / in_ids(s, h) / in_y(s, m, x) are membership predicates axiomatised over append, concatenation and indexing",
 ]
